@@ -613,3 +613,78 @@ Example modelled_on_success :
   AReturn {| r_ast := true; r_decls := true; r_defs := true; r_iter := true; r_output := true; r_error := false |}
           [KNote; KNote; KNote; KNote; KNote; KNote; KNote; KNote; KNote; KNote; KNote; KNote; KNote; KNote].
 Proof. vm_compute. reflexivity. Qed.
+
+(* ---------------------------------------------------------------- packaging for Props/C03.v *)
+From CA Require Import Model.TopTables.
+
+Theorem tables_match_source :
+  decode_shape c03_assemble_pre c03_assemble_loop c03_assemble_post c03_err_arm = Some modelled_shape /\
+  decode_driver c03_driver_steps = Some modelled_driver_shape /\
+  c03_cli_returns_driver_result = true /\
+  c03_main_exit_on_err <> 0%N /\
+  report_ops_are_pushes c03_report_message_ops = true.
+Proof. repeat split; try (vm_compute; reflexivity). vm_compute. discriminate. Qed.
+
+Theorem source_shape_ok : forall sh,
+  decode_shape c03_assemble_pre c03_assemble_loop c03_assemble_post c03_err_arm = Some sh -> shape_ok sh = true.
+Proof.
+  intros sh H. rewrite (proj1 tables_match_source) in H. inversion H; subst. exact modelled_shape_ok.
+Qed.
+
+Theorem outcome_exclusive : forall a r, ~ (clean_success a r /\ loud_failure a r).
+Proof. intros a r [(A & _) (B & _)]. congruence. Qed.
+
+Definition driver_statement (gs : list pgroup) (c : command) (wr : text -> bool) (out : dout) : Prop :=
+  (d_result out = DrOk \/ d_result out = DrErr \/ d_result out = DrDiverge) /\
+  (d_result out = DrOk ->
+     exit_status c03_main_exit_on_err (d_result out) = Some 0%N /\ has_error (d_report out) = false /\ d_failed_write out = None /\
+     (((c_help c = true \/ c_version c = true) /\ d_acts out = []) \/
+      (d_acts out = map action_of (c_groups c) /\ List.length (d_acts out) = List.length gs /\ Forall acts_once (d_acts out)))) /\
+  (d_result out = DrErr ->
+     (exists n, exit_status c03_main_exit_on_err (d_result out) = Some n /\ n <> 0%N) /\ has_error (d_report out) = true /\
+     (d_acts out = [] \/ exists name, d_failed_write out = Some name /\ wr name = false)) /\
+  ((d_acts out <> [] \/ d_failed_write out <> None) ->
+     exists a r, d_asm out = Some (a, r) /\ clean_success a r /\ d_clean_at_actions out = true).
+
+Theorem driver_spec : forall St (sem : pkind -> St -> report -> option St * report) loop_done (init : command -> St) fuel gs wr c,
+  obligations St sem -> parse_command gs = COk c ->
+  driver_statement gs c wr
+    (drive modelled_driver_shape gs wr (fun c r => TopShape.assemble St sem loop_done modelled_shape fuel (init c) r)).
+Proof.
+  intros St sem loop_done init fuel gs wr c Hob Hc. unfold drive. rewrite Hc.
+  assert (Hasm : forall r, match TopShape.assemble St sem loop_done modelled_shape fuel (init c) r with
+                           | AReturn a rep => clean_success a rep \/ loud_failure a rep
+                           | ADiverge => True
+                           | _ => False end)
+    by (intro r; exact (assemble_outcome St sem loop_done Hob modelled_shape modelled_shape_ok fuel (init c) r)).
+  destruct (awc_spec _ Hasm c wr) as (R & Ok & Er & Ac).
+  set (out := assemble_with_command modelled_driver_shape c wr
+                (fun r => TopShape.assemble St sem loop_done modelled_shape fuel (init c) r) []) in *.
+  unfold driver_statement. split; [exact R|]. split; [|split; [|exact Ac]].
+  - intro E. destruct (Ok E) as (A & B & C). rewrite E. split; [reflexivity|]. split; [exact A|]. split; [exact B|].
+    destruct C as [C|(C & _)]; [left; exact C|]. right.
+    exact (run_one_action_per_group gen_tables gs c true wr (d_acts out) Hc C).
+  - intro E. destruct (Er E) as (A & B). rewrite E. split.
+    + exists c03_main_exit_on_err. split; [reflexivity|]. exact (proj1 (proj2 (proj2 (proj2 tables_match_source)))).
+    + split; [exact A|]. destruct B as [(B & _)|(name & B1 & B2 & _)]; [left; exact B | right; exists name; auto].
+Qed.
+
+Theorem driver_bad_command : forall gs wr asm e, parse_command gs = CErr e ->
+  let out := drive modelled_driver_shape gs wr asm in
+  d_result out = DrErr /\ d_acts out = [] /\ d_failed_write out = None /\ has_error (d_report out) = true /\ d_asm out = None.
+Proof. intros gs wr asm e H. unfold drive. rewrite H. simpl. auto. Qed.
+
+(* non-vacuity of the driver theorem: `customasm m -o o` with an output that cannot be written / that can *)
+Definition ex_groups : list pgroup :=
+  [{| pg_format := None; pg_output := Some [111]; pg_print := false; pg_quiet := false; pg_version := false; pg_help := false;
+      pg_defines := []; pg_debug_iters := false; pg_no_static := false; pg_no_matcher := false; pg_color := None; pg_iters := None;
+      pg_free := [[109]] |}].
+
+Example driver_example :
+  let asm := fun (c : command) r => TopShape.assemble unit (fun _ _ _ => (Some tt, [])) (fun _ => true) modelled_shape 1 tt r in
+  d_result (drive modelled_driver_shape ex_groups (fun _ => true) asm) = DrOk /\
+  List.length (d_acts (drive modelled_driver_shape ex_groups (fun _ => true) asm)) = 1%nat /\
+  d_result (drive modelled_driver_shape ex_groups (fun _ => false) asm) = DrErr /\
+  d_failed_write (drive modelled_driver_shape ex_groups (fun _ => false) asm) = Some [111] /\
+  d_acts (drive modelled_driver_shape ex_groups (fun _ => false) asm) = [].
+Proof. vm_compute. repeat split. Qed.
